@@ -210,13 +210,13 @@ def c02(tier):
 def c04(tier):
     inv = ["Readable", "PastRootsReadable"]
     pr = ["AppendOnly", "FailedWriteKeepsRoot"]
-    base = dict(prune="OnlyNoPrune", features="FHist", invariants=inv, properties=pr)
+    base = dict(prune="OnlyNoPrune", features="FHistCk", invariants=inv, properties=pr)
     return generic("C04", tier,
                    [dict(base, level=4, view="ViewFull")],
                    [dict(base, level=5, view="ViewFull"),
                     dict(base, level=4, view="ViewLight", invariants=["Readable"], vals="VFull")],
                    opts=("past",), modes=("second", "batch"), ntr=(80, 1000), prune=False,
-                   sim=dict(base, features="FHistNoop", view="ViewFull", maxlive=4))
+                   sim=dict(base, features="FHistCkNoop", view="ViewFull", maxlive=4))
 
 
 def c05(tier):
